@@ -158,37 +158,23 @@ theorem roundtrip_partial (bo wo : Endian) (vs : List Value) (h : AllWF vs) (ha 
   ⟨roundtrip_bytes bo wo vs h ha, roundtrip_registers bo wo vs h ha⟩
 
 /-! ### transport as coils (`to_coils()` / `fromCoils`) — outside the property's two transports,
-    but the same builder/decoder pair; here the code has a defect -/
+    but the same builder/decoder pair (the word order used to be dropped here; repaired) -/
 
-/-- Through coils the bytes arrive intact, so with word order Big every value comes back … -/
-theorem roundtrip_coils_partial (bo : Endian) (vs : List Value) (h : AllWF vs) :
-    roundtripCoils bo .big vs = .ok (vs.map canon) := by
-  have hwf := bytesImage_wf bo .big vs h
-  obtain ⟨coils, h1, h2⟩ := fromCoils_toCoils bo .big (vs.map (valueBytes bo .big))
+/-- Through coils the bytes arrive intact and the decoder gets both orders, so every value comes back, for
+    every byte order and word order -/
+theorem roundtrip_coils (bo wo : Endian) (vs : List Value) (h : AllWF vs) :
+    roundtripCoils bo wo vs = .ok (vs.map canon) := by
+  have hwf := bytesImage_wf bo wo vs h
+  obtain ⟨coils, h1, h2⟩ := fromCoils_toCoils bo wo (vs.map (valueBytes bo wo))
     (by rw [toString_map]; exact hwf)
   rw [toString_map] at h2
   have hd := decodeAll_at vs
-    ⟨bytesImage bo .big vs ++ List.replicate ((bytesImage bo .big vs).length % 2) 0, 0, bo, .big⟩
-    [] (List.replicate ((bytesImage bo .big vs).length % 2) 0) h (by simp) rfl
-  simp only [roundtripCoils, buildAll_eq bo .big vs h, h1, h2, bind, Except.bind]
+    ⟨bytesImage bo wo vs ++ List.replicate ((bytesImage bo wo vs).length % 2) 0, 0, bo, wo⟩
+    [] (List.replicate ((bytesImage bo wo vs).length % 2) 0) h (by simp) rfl
+  simp only [roundtripCoils, buildAll_eq bo wo vs h, h1, h2, bind, Except.bind]
   exact hd
 
-/-- "… for every word order" -/
-def roundtrip_coils_full : Prop :=
-  ∀ (bo wo : Endian) (vs : List Value), AllWF vs → AllAligned vs → roundtripCoils bo wo vs = .ok vs
-
-/-- … but `fromCoils` drops its `wordorder` argument (`return klass(payload, byteorder)`), so
-    with word order Little a 32-bit value comes back with its words exchanged. -/
-theorem roundtrip_coils_counterexample :
-    roundtripCoils .big .little [.num .u32 0x12345678] = .ok [.num .u32 0x56781234] ∧
-    ¬ roundtrip_coils_full := by
-  have e : roundtripCoils .big .little [.num .u32 0x12345678] = .ok [.num .u32 0x56781234] := by rfl
-  refine ⟨e, fun h => ?_⟩
-  have h1 := h .big .little [.num .u32 0x12345678] (by decide) (by decide)
-  rw [e] at h1
-  injection h1 with h2
-  revert h2
-  decide
+example : roundtripCoils .big .little [.num .u32 0x12345678] = .ok [.num .u32 0x12345678] := by rfl
 
 /-! ### tie to the source -/
 
